@@ -55,10 +55,11 @@ class BaseInterval(ABC):
         """
         vmin, vmax = self.get_limits(values)
 
-        # subtract vmin
-        values = np.subtract(values, vmin)
+        # subtract vmin (integer input is converted first to avoid wrap-around)
+        values = np.asarray(values)
         if np.issubdtype(values.dtype, np.integer):
             values = values.astype(np.float64)
+        values = np.subtract(values, vmin)
         # divide by interval
         if (vmax - vmin) != 0.0:
             np.true_divide(values, vmax - vmin, out=values)
